@@ -1010,7 +1010,7 @@ class Gen:
         if n >= len(loops):
             raise LostAnchor('loop %d not found in %s' % (n, selector))
         kwtok, kind, hdr, bopen = loops[n]
-        if 'hdr' in kw and norm(kw['hdr']) not in norm(hdr):
+        if 'hdr' in kw and norm(kw['hdr'].lstrip('=').replace('~', ' ')) not in norm(hdr):
             raise LostAnchor('loop %d of %s has header %r, expected %r' % (n, selector, hdr, kw['hdr']))
         oblig = kw['as']
         header, lins, proofs = self.parse_block(block)
@@ -1112,7 +1112,10 @@ def resolve_loop(loops, sel):
     if isinstance(sel, int):
         return sel
     want = norm(sel[4:].replace('~', ' '))
-    cand = [i for i, l in enumerate(loops) if want in norm(l[2])]
+    if want.startswith('='):     # `hdr:=TEXT`: the header IS that text
+        cand = [i for i, l in enumerate(loops) if want[1:] == norm(l[2])]
+    else:
+        cand = [i for i, l in enumerate(loops) if want in norm(l[2])]
     if len(cand) != 1:
         raise LostAnchor('loop selector %r matches %d loops' % (sel, len(cand)))
     return cand[0]
